@@ -695,6 +695,8 @@ func runRouter(in *Sx) *Sx {
 							if !rr.register(regIdx[k], d.Args()[0], d.Args()[1]) {
 								panic("replay of an accepted registration failed")
 							}
+						} else if d.Tag() == "name" {
+							rr.routes[d.Args()[0].Int()].Name(d.Args()[1].Bytes())
 						} else {
 							rr.headers(d.Args()[0].Int(), d.Args()[1])
 						}
@@ -706,6 +708,41 @@ func runRouter(in *Sx) *Sx {
 			outs = append(outs, T("ok"))
 			done = append(done, op)
 			regIdx = append(regIdx, -1)
+		case "name":
+			res := T("ok")
+			func() {
+				defer func() {
+					if p := recover(); p != nil {
+						res = T("panic")
+					}
+				}()
+				idx := a[0].Int()
+				if idx >= len(rr.routes) || rr.routes[idx] == nil {
+					res = T("skip")
+					return
+				}
+				rr.routes[idx].Name(a[1].Bytes())
+			}()
+			outs = append(outs, res)
+			if res.Tag() == "ok" {
+				done = append(done, op)
+				regIdx = append(regIdx, -1)
+			}
+		case "url":
+			var res *Sx
+			func() {
+				defer func() {
+					if p := recover(); p != nil {
+						res = T("panic")
+					}
+				}()
+				var pairs []string
+				for _, x := range a[1].Args() {
+					pairs = append(pairs, x.Bytes())
+				}
+				res = T("s", X(rr.f.URLPath(a[0].Bytes(), pairs...)))
+			}()
+			outs = append(outs, res)
 		case "req":
 			serve := func() *Sx {
 				rr.hit = T("nohandler")
@@ -736,6 +773,24 @@ func runRouter(in *Sx) *Sx {
 			if r1.String() != r2.String() {
 				r1 = T("nondeterministic", r1, r2)
 			}
+			if len(a) > 3 && r1.Tag() == "found" { // feed the delivered parameters back into URLPath
+				name := a[3].Args()[0].Bytes()
+				var pairs []string
+				for _, p := range r1.Args()[1:] {
+					if k := p.Args()[0].Bytes(); k != "route" {
+						pairs = append(pairs, k, p.Args()[1].Bytes())
+					}
+				}
+				rb := func(extra ...string) (res *Sx) {
+					defer func() {
+						if p := recover(); p != nil {
+							res = A("panic")
+						}
+					}()
+					return X(rr.f.URLPath(name, append(append([]string{}, pairs...), extra...)...))
+				}
+				r1 = T("rebuilt", r1, rb(), rb("withOptional", "true"))
+			}
 			outs = append(outs, r1)
 		default:
 			panic(badInput("op " + op.String()))
@@ -744,7 +799,97 @@ func runRouter(in *Sx) *Sx {
 	return T("obs", T("outs", outs...))
 }
 
+// genC12: named routes and URL building with adversarial values.
+func genC12(rng *rand.Rand, n int, tier string, emit func(*Sx)) {
+	for i := 0; i < n; i++ {
+		g := &routerGen{rng: rng, regexes: map[string]*Sx{}}
+		var ops []*Sx
+		var routes []*Sx
+		names := []string{"home", "r1", "r2", "", "r1"}
+		var named []string
+		var namedRoute []*Sx
+		nreg := 1 + rng.Intn(4)
+		for k := 0; k < nreg; k++ {
+			r := g.route(false)
+			if rng.Intn(10) == 0 {
+				r = g.badRoute(routes)
+			}
+			routes = append(routes, r)
+			ms := T("m", A("GET"))
+			if rng.Intn(4) == 0 {
+				ms = T("any")
+			}
+			ops = append(ops, T("reg", ms, r))
+			if rng.Intn(4) != 0 {
+				nm := names[rng.Intn(len(names))]
+				ops = append(ops, T("name", I(k), X(nm)))
+				named = append(named, nm)
+				namedRoute = append(namedRoute, r)
+			}
+		}
+		bindsOf := func(r *Sx) []string {
+			var out []string
+			for _, s := range r.Args() {
+				for _, e := range s.Args()[1:] {
+					switch e.Tag() {
+					case "bind":
+						out = append(out, e.Args()[0].Bytes())
+					case "params":
+						for _, p := range e.Args() {
+							out = append(out, p.Args()[0].Bytes())
+						}
+					}
+				}
+			}
+			return out
+		}
+		vals := []string{"", "v", "{x}", "{y}", "/", "{", "}", "{id}x", "a}{b", "7", "a/b", "%41", "x y"}
+		for q := 2 + rng.Intn(6); q > 0; q-- {
+			r := routes[rng.Intn(len(routes))]
+			nm := names[rng.Intn(len(names))]
+			if len(named) > 0 && rng.Intn(6) != 0 {
+				k := rng.Intn(len(named))
+				nm, r = named[k], namedRoute[k]
+			}
+			var pairs []*Sx
+			bs := bindsOf(r)
+			for _, b := range bs {
+				if rng.Intn(4) != 0 {
+					pairs = append(pairs, X(b), X(vals[rng.Intn(len(vals))]))
+				}
+			}
+			if rng.Intn(3) == 0 {
+				pairs = append(pairs, X([]string{"nope", "x", "capture", "route"}[rng.Intn(4)]), X(vals[rng.Intn(len(vals))]))
+			}
+			if rng.Intn(2) == 0 {
+				pairs = append(pairs, X("withOptional"), X([]string{"true", "true", "false", "1"}[rng.Intn(4)]))
+			}
+			if rng.Intn(10) == 0 && len(bs) > 0 { // the same name twice: the later value counts
+				pairs = append(pairs, X(bs[0]), X("again"))
+			}
+			if rng.Intn(15) == 0 { // odd number of arguments
+				pairs = append(pairs, X("dangling"))
+			}
+			ops = append(ops, T("url", X(nm), T("pairs", pairs...)))
+			// requests whose parameters are then fed back (checked by the model)
+			if rng.Intn(2) == 0 {
+				if nm != "" {
+					ops = append(ops, T("req", X("GET"), X(g.instance(r)), T("hdrs"), T("rebuild", X(nm))))
+				} else {
+					ops = append(ops, T("req", X("GET"), X(g.instance(r)), T("hdrs")))
+				}
+			}
+		}
+		var res []*Sx
+		for _, src := range g.order {
+			res = append(res, T("r", X(src), g.regexes[src]))
+		}
+		emit(T("in", T("policy", A("rebuild")), T("regexes", res...), T("ops", ops...)))
+	}
+}
+
 func init() {
+	properties["C12"] = &property{gen: genC12, run: runRouter}
 	for _, p := range []string{"C01", "C02", "C07", "C08", "C09", "C10"} {
 		properties[p] = &property{gen: genRouter(p), run: runRouter}
 	}
